@@ -82,6 +82,25 @@ func storeSig(fn *ssa.Function, depth int) []string {
 			}
 			return "alloc"
 		case *ssa.Call:
+			// a small constructor helper of the package (return &T{…} built from its parameters) is described by what it returns
+			if sc := x.Call.StaticCallee(); sc != nil && sc.Pkg == fn.Pkg && sc.Blocks != nil && len(sc.Blocks) == 1 && d < 4 {
+				var ret *ssa.Return
+				for _, in := range sc.Blocks[0].Instrs {
+					if r, ok := in.(*ssa.Return); ok {
+						ret = r
+					}
+				}
+				if ret != nil && len(ret.Results) == 1 {
+					if _, isAlloc := ret.Results[0].(*ssa.Alloc); isAlloc {
+						for i, prm := range sc.Params {
+							if i < len(x.Call.Args) {
+								paramSrc[prm] = valueSrc(x.Call.Args[i], d+1)
+							}
+						}
+						return valueSrc(ret.Results[0], d+1)
+					}
+				}
+			}
 			if cf := calleeFunc(x); cf != nil {
 				if cf.Name() == "append" {
 					return "append"
